@@ -1,0 +1,146 @@
+// Copyright 2019 The Scriggo Authors. All rights reserved.
+// Use of this source code is governed by a BSD-style
+// license that can be found in the LICENSE file.
+
+//go:build verif
+
+// Contracts for the deductive verifier in /verif (govc). This file is compiled
+// only with the "verif" build tag. The //@ comment blocks are the contracts;
+// the Go functions are executable specification functions used by them.
+
+package builtin
+
+// ---- specification helpers (interpreted by govc) ----
+
+func old[T any](x T) T   { return x }
+func entry[T any](x T) T { return x }
+func imp(a, b bool) bool { return !a || b }
+func forall(lo, hi int, p func(int) bool) bool {
+	for k := lo; k < hi; k++ {
+		if !p(k) {
+			return false
+		}
+	}
+	return true
+}
+func exists(lo, hi int, p func(int) bool) bool {
+	for k := lo; k < hi; k++ {
+		if p(k) {
+			return true
+		}
+	}
+	return false
+}
+func rangeIndex(n int) int { return 0 }
+
+// JSON whitespace (RFC 8259, section 2): space, horizontal tab, line feed, carriage return.
+func specJSONSpace(c byte) bool { return c == ' ' || c == '\t' || c == '\n' || c == '\r' }
+
+// ---------------------------------------------------------------------------
+// C25: documented results; functions documented to return an error (or a value)
+// never panic. Explicit panics are allowed only where the documentation says so.
+// ---------------------------------------------------------------------------
+
+// "Abs returns the absolute value of x. As a special case, if x is the
+// smallest negative integer, Abs returns x."
+//@ func Abs
+//@   props C25
+//@   opt wrap64 on
+//@   ensures x >= 0 ==> result == x
+//@   ensures x < 0 && x != -9223372036854775808 ==> result == -x
+//@   ensures x == -9223372036854775808 ==> result == x
+
+//@ func Max
+//@   props C25
+//@   ensures result >= x && result >= y && (result == x || result == y)
+
+//@ func Min
+//@   props C25
+//@   ensures result <= x && result <= y && (result == x || result == y)
+
+// onlyJSONWhitespace: true exactly when every byte is JSON whitespace; never panics.
+//@ func onlyJSONWhitespace
+//@   props C25
+//@   ensures result == forall(0, len(s), func(k int) bool { return specJSONSpace(s[k]) })
+//@   loop 0
+//@     invariant 0 <= i && i <= len(s)
+//@     invariant forall(0, i, func(k int) bool { return specJSONSpace(s[k]) })
+//@     decreases len(s) - i
+
+// trimJSONSpace: the maximal sub-slice without leading and trailing JSON
+// whitespace; never panics (IndentJSON passes arbitrary data, including data
+// made only of whitespace).
+//@ func trimJSONSpace
+//@   props C25
+//@   ensures len(result) <= len(data)
+//@   ensures len(result) > 0 ==> !specJSONSpace(result[0]) && !specJSONSpace(result[len(result)-1])
+//@   loop 0
+//@     invariant 0 <= i && i <= j+1 && j == len(data)-1
+//@     decreases len(data) - i
+//@   loop 1
+//@     invariant i-1 <= j && j < len(data) && 0 <= i && i <= len(data)
+//@     invariant i <= j ==> !specJSONSpace(data[i])
+//@     decreases j + 1
+
+// MarshalJSONIndent is documented to return an error, never to panic.
+//@ func MarshalJSONIndent
+//@   props C25
+
+//@ func MarshalJSON
+//@   props C25
+
+// IndentJSON, FormatInt, FormatFloat: documented panics only.
+//@ func IndentJSON
+//@   props C25
+//@   panics allowed
+
+//@ func FormatInt
+//@   props C25
+//@   panics allowed
+
+//@ func FormatFloat
+//@   props C25
+//@   panics allowed
+
+//@ func Abbreviate
+//@   props C25
+//@   loop 0
+//@     invariant 0 <= n2 && n2 <= len(s)
+
+//@ func Base64
+//@   props C25
+
+//@ func Capitalize
+//@   props C25
+
+//@ func HasPrefix
+//@   props C25
+//@   ensures result == (len(s) >= len(prefix) && s[:len(prefix)] == prefix)
+
+//@ func Hex
+//@   props C25
+
+//@ func Index
+//@   props C25
+
+//@ func Join
+//@   props C25
+
+//@ func ParseInt
+//@   props C25
+
+//@ func ParseFloat
+//@   props C25
+
+//@ func ToKebab
+//@   props C25
+//@   loop 0
+//@     invariant n == len(runes)
+//@     invariant noDash ==> i >= 1
+
+//@ func isSeparator
+//@   props C25
+
+//@ func replacePrefix
+//@   props C25
+//@   requires err != nil
